@@ -216,7 +216,8 @@ def run(st, tier, seed):
         e, w, idx = encode(keys, eq, wc)
         reqs.append({"op": "closure", "eq": e, "wc": w})
         if "ok" in r:
-            canon = sorted([idx[k], sorted(idx[y] for y in r["ok"][k][0]), sorted(idx[y] for y in r["ok"][k][1])] for k in r["ok"])
+            # items the caller never gave (a result with junk entries is already a violation above) are shown as -1
+            canon = sorted([idx.get(k, -1), sorted(idx.get(y, -1) for y in r["ok"][k][0]), sorted(idx.get(y, -1) for y in r["ok"][k][1])] for k in r["ok"])
             impls.append({"ok": canon})
         else:
             impls.append(r)
